@@ -4,7 +4,7 @@
 
 use std::sync::OnceLock;
 
-use ff::{Field, PrimeField};
+use ff::PrimeField;
 use group::Group;
 use midnight_circuits::{
     ecc::{
@@ -31,10 +31,15 @@ use num_traits::{One, Zero};
 use super::ops::Op;
 
 pub type RP = Pt<Big>;
+#[allow(dead_code)]
 type NG = NativeGadget<F, P2RDecompositionChip<F>, NativeChip<F>>;
+#[allow(dead_code)]
 type SecpScalarChip = FieldChip<F, midnight_curves::k256::Fq, MEP, NG>;
+#[allow(dead_code)]
 pub type SecpChip = ForeignEccChip<F, K256, MEP, SecpScalarChip, NG>;
+#[allow(dead_code)]
 pub type BlsChip = ForeignEccChip<F, G1Projective, MEP, NG, NG>;
+#[allow(dead_code)]
 pub type JubChip = EccChip<JubjubExtended>;
 
 #[derive(Clone, Copy, Debug, PartialEq, Eq, Hash)]
@@ -45,6 +50,8 @@ pub enum Kind {
     B,
     N,
     Y,
+    /// witness-only point: handed to the gadget as an unassigned `Value`, never exposed
+    H,
 }
 
 /// Off-circuit (reference) values. Points are affine reference points (`Pt::Inf` = Weierstrass
@@ -57,6 +64,7 @@ pub enum Val {
     B(bool),
     N(F),
     Y(u8),
+    H(RP),
 }
 
 impl std::fmt::Debug for Val {
@@ -69,6 +77,8 @@ impl std::fmt::Debug for Val {
             Val::B(b) => write!(f, "B({})", *b as u8),
             Val::N(n) => write!(f, "N({:x})", fbig(n)),
             Val::Y(b) => write!(f, "Y({b})"),
+            Val::H(Pt::Inf) => write!(f, "H(inf)"),
+            Val::H(Pt::Aff(x, y)) => write!(f, "H({:x},{:x})", x, y),
         }
     }
 }
@@ -82,11 +92,12 @@ impl Val {
             Val::B(_) => Kind::B,
             Val::N(_) => Kind::N,
             Val::Y(_) => Kind::Y,
+            Val::H(_) => Kind::H,
         }
     }
     pub fn p(&self) -> &RP {
         match self {
-            Val::P(p) => p,
+            Val::P(p) | Val::H(p) => p,
             _ => panic!("harness: expected a point"),
         }
     }
@@ -206,9 +217,16 @@ pub enum Asg<V: Cv> {
     B(AssignedBit<F>),
     N(AssignedNative<F>),
     Y(AssignedByte<F>),
+    H(Value<RP>),
 }
 
 impl<V: Cv> Asg<V> {
+    pub fn h(&self) -> Value<RP> {
+        match self {
+            Asg::H(p) => p.clone(),
+            _ => panic!("harness: expected a witness-only point"),
+        }
+    }
     pub fn p(&self) -> &V::Pt {
         match self {
             Asg::P(p) => p,
@@ -423,6 +441,7 @@ impl Cv for Jub {
             Val::B(b) => vec![F::from(*b as u64)],
             Val::N(n) => vec![*n],
             Val::Y(b) => vec![F::from(*b as u64)],
+            Val::H(_) => vec![],
         }
     }
     fn lib_enc(v: &Val) -> Option<Vec<F>> {
@@ -433,11 +452,13 @@ impl Cv for Jub {
             Val::B(b) => Some(<AssignedBit<F> as Instantiable<F>>::as_public_input(b)),
             Val::N(n) => Some(<AssignedNative<F> as Instantiable<F>>::as_public_input(n)),
             Val::Y(b) => Some(<AssignedByte<F> as Instantiable<F>>::as_public_input(b)),
+            Val::H(_) => None,
         }
     }
     fn width(k: Kind) -> usize {
         match k {
             Kind::P => 2,
+            Kind::H => 0,
             _ => 1,
         }
     }
@@ -475,6 +496,7 @@ impl Cv for Jub {
                 }
                 Ok(Val::Y(x.to_u64_digits().first().copied().unwrap_or(0) as u8))
             }
+            Kind::H => Err("witness-only value".into()),
         }
     }
     common_ecc!(jubjub, JubjubSubgroup);
@@ -615,6 +637,7 @@ impl Cv for Secp {
             Val::B(b) => vec![F::from(*b as u64)],
             Val::N(n) => vec![*n],
             Val::Y(b) => vec![F::from(*b as u64)],
+            Val::H(_) => vec![],
         }
     }
     fn lib_enc(v: &Val) -> Option<Vec<F>> {
@@ -625,12 +648,14 @@ impl Cv for Secp {
             Val::B(b) => Some(<AssignedBit<F> as Instantiable<F>>::as_public_input(b)),
             Val::N(n) => Some(vec![*n]),
             Val::Y(b) => Some(<AssignedByte<F> as Instantiable<F>>::as_public_input(b)),
+            Val::H(_) => None,
         }
     }
     fn width(k: Kind) -> usize {
         match k {
             Kind::P => 8,
             Kind::S | Kind::C => 4,
+            Kind::H => 0,
             _ => 1,
         }
     }
@@ -643,6 +668,7 @@ impl Cv for Secp {
             Kind::B => bit_dec(&raw[0]),
             Kind::N => Ok(Val::N(raw[0])),
             Kind::Y => Ok(Val::Y(fbig(&raw[0]).to_u64_digits().first().copied().unwrap_or(0) as u8)),
+            Kind::H => Err("witness-only value".into()),
         }
     }
     common_ecc!(secp256k1_curve, K256);
@@ -667,6 +693,11 @@ impl Cv for Secp {
             Op::MsmLeBits(n) => {
                 let bits: Vec<AssignedBit<F>> = ins[..*n].iter().map(|a| a.b().clone()).collect();
                 Ok(vec![Asg::P(s.secp256k1_curve().msm_by_le_bits(l, &[bits], &[ins[*n].p().clone()])?)])
+            }
+            Op::KOutOfN { n, k } => {
+                let table: Vec<Self::Pt> = ins[..*n].iter().map(|a| a.p().clone()).collect();
+                let sel: Vec<Value<K256>> = ins[*n..*n + *k].iter().map(|a| a.h().map(|p| Self::to_lib(&p))).collect();
+                Ok(s.secp256k1_curve().k_out_of_n_points(l, &table, &sel)?.into_iter().map(Asg::P).collect())
             }
             _ => Err(Error::Synthesis(format!("harness: {op:?} not available on secp256k1"))),
         }
@@ -724,6 +755,7 @@ impl Cv for Bls {
             Val::B(b) => vec![F::from(*b as u64)],
             Val::N(n) => vec![*n],
             Val::Y(b) => vec![F::from(*b as u64)],
+            Val::H(_) => vec![],
         }
     }
     fn lib_enc(v: &Val) -> Option<Vec<F>> {
@@ -734,12 +766,14 @@ impl Cv for Bls {
             Val::B(b) => Some(<AssignedBit<F> as Instantiable<F>>::as_public_input(b)),
             Val::N(n) => Some(vec![*n]),
             Val::Y(b) => Some(<AssignedByte<F> as Instantiable<F>>::as_public_input(b)),
+            Val::H(_) => None,
         }
     }
     fn width(k: Kind) -> usize {
         match k {
             Kind::P => 14,
             Kind::C => 7,
+            Kind::H => 0,
             _ => 1,
         }
     }
@@ -752,6 +786,7 @@ impl Cv for Bls {
             Kind::B => bit_dec(&raw[0]),
             Kind::N => Ok(Val::N(raw[0])),
             Kind::Y => Ok(Val::Y(fbig(&raw[0]).to_u64_digits().first().copied().unwrap_or(0) as u8)),
+            Kind::H => Err("witness-only value".into()),
         }
     }
     common_ecc!(bls12_381_curve, G1Projective);
@@ -776,6 +811,11 @@ impl Cv for Bls {
             Op::MsmLeBits(n) => {
                 let bits: Vec<AssignedBit<F>> = ins[..*n].iter().map(|a| a.b().clone()).collect();
                 Ok(vec![Asg::P(s.bls12_381_curve().msm_by_le_bits(l, &[bits], &[ins[*n].p().clone()])?)])
+            }
+            Op::KOutOfN { n, k } => {
+                let table: Vec<Self::Pt> = ins[..*n].iter().map(|a| a.p().clone()).collect();
+                let sel: Vec<Value<G1Projective>> = ins[*n..*n + *k].iter().map(|a| a.h().map(|p| Self::to_lib(&p))).collect();
+                Ok(s.bls12_381_curve().k_out_of_n_points(l, &table, &sel)?.into_iter().map(Asg::P).collect())
             }
             Op::BlsSubgroup => {
                 s.bls12_381_curve().assert_in_bls12_381_subgroup(l, ins[0].p())?;
